@@ -45,7 +45,10 @@ MODELS = {
     "B2": {"h": "hd", "filt": "none"},
     "B3": {"cc": "cl", "e": 1},  # two continuous choices of unequal size + dense and restricted discrete choice
     "B4": {"filt": "none", "e": 1, "uperiod": 1},  # two unrestricted discrete choices (same kind), period in utility
+    "B5": {"filt": "states", "e": 1},  # TWO restricted states (s: 3 labels, g: 2 labels), hash-seed cases only
+    "B6": {"h": "three"},  # three stochastic states, hash-seed cases only
 }
+SEQ_MODELS = ["B0", "B1", "B2", "B3", "B4"]
 SOLVE_LETTERS = ["solve(P1)", "solve(P2)", "solve(P1np)", "solve(P1jax)", "solve(M:=P1)", "solve(M:=P3 in place)"]
 SIM_LETTERS = ["sim(P1,S1,0)", "sim(P2,S2,1)", "sim(P1,S2,0)", "sim(P1,S1,1)", "sim(M:=P1,S1,0)", "sim(M:=P3 in place,S1,0)"]
 VARIANTS = ["A", "A-loggrid", "A-coef", "A-auxbody", "A-filter"]
@@ -58,7 +61,7 @@ def BOUND(tier):
 def cases(tier, seed):
     out = []
     depth = 2 if tier == "quick" else 3
-    for m in MODELS:
+    for m in SEQ_MODELS:
         for jit in (True, False):
             for target, letters in (("solve", SOLVE_LETTERS), ("sas", SIM_LETTERS)):
                 for first in range(len(letters)):
@@ -69,6 +72,7 @@ def cases(tier, seed):
             if len(set(seq)) == 1:
                 continue
             out.append({"id": "variants-" + ">".join(VARIANTS[i] for i in seq), "kind": "variants", "seq": list(seq), "seed": seed})
+    out.append({"id": "reuse-of-user-supplied-value-arrays", "kind": "reuse", "seed": seed})
     for m in MODELS:
         for hs in range(16 if tier == "quick" else 64):
             out.append({"id": f"hash-{m}-seed{hs}", "kind": "hash", "model": m, "hashseed": hs, "seed": seed})
@@ -76,11 +80,11 @@ def cases(tier, seed):
 
 
 def cost(case):
-    return {"seq": 40, "variants": 6, "hash": 10}[case["kind"]]
+    return {"seq": 40, "variants": 6, "hash": 10, "reuse": 5}[case["kind"]]
 
 
 def case_rank(case):
-    return {"seq": 0, "variants": 1, "hash": 2}[case["kind"]]
+    return {"seq": 0, "variants": 1, "hash": 2, "reuse": 0}[case["kind"]]
 
 
 # ------------------------------------------------------------------------------ helpers
@@ -346,8 +350,50 @@ def _run_hash(case):
     return outcome(states=len(obs), transitions=len(obs), traces=1, digest=digest(sorted(doc["digests"].items())), obs=obs, arg_order=doc["arg_order"])
 
 
+def _run_reuse(case):
+    """target 'simulate' with a USER-SUPPLIED vf_arr_list that is reused: as many agents as state grid points
+    (so that output shapes can coincide with the value arrays), mini models with continuous states only."""
+    import jax.numpy as jnp
+    from lcm.entry_point import get_lcm_function
+
+    viols, n_calls, obs = [], 0, []
+    minis = {
+        "W": ("def utility(w, c, a):\n    return jnp.log(c) + a * 0.01 * w\n\ndef next_w(w, c):\n    return 0.95 * (w - c) + 1.1\n\ndef c_constraint(c, w):\n    return c <= w + 0.2371",
+              [("w", "Lin(1, 6, 12)")], [("c", "Lin(0.5, 3.0, 7)")], ["utility", "next_w", "c_constraint"]),
+        "WG": ("def utility(w, g, c, a):\n    return jnp.log(c) + a * 0.01 * w + 0.05 * g\n\ndef next_w(w, c):\n    return 0.95 * (w - c) + 1.1\n\ndef next_g(g):\n    return g\n\ndef c_constraint(c, w):\n    return c <= w + 0.2371",
+               [("g", "D(2)"), ("w", "Lin(1, 6, 6)")], [("c", "Lin(0.5, 3.0, 7)")], ["utility", "next_w", "next_g", "c_constraint"]),
+    }
+    for name, (src, states, choices, funcs) in minis.items():
+        model = family.exec_model(family.assemble(3, src, states, choices, funcs))
+        P1 = {"beta": 0.9, **{f: {} for f in funcs}, "utility": {"a": 1.3}}
+        P2 = {"beta": 0.8, **{f: {} for f in funcs}, "utility": {"a": 2.1}}
+        try:
+            solve, _ = get_lcm_function(model, targets="solve", debug_mode=False)
+            sim, _ = get_lcm_function(model, targets="simulate", debug_mode=False)
+            V = solve(P1)
+            before = [np.asarray(v).copy() for v in V]
+            r = e1.refmodel.Ref(model, P1)
+            mesh = np.meshgrid(*[r.grids[s] for s in r.states], indexing="ij")
+            init = {s: jnp.asarray(m.reshape(-1)) for s, m in zip(r.states, mesh)}  # one agent per grid state
+            frames = []
+            for k, (p, label) in enumerate([(P1, "sim(P1,V)"), (P1, "sim(P1,V) again"), (P2, "sim(P2,V)"), (P1, "sim(P1,V) third")]):
+                fr = sim(p, initial_states=init, vf_arr_list=V, seed=3)
+                n_calls += 1
+                frames.append(_frame_digest(fr))
+                after = [np.asarray(v) for v in V]
+                if any(a.shape != b.shape or not np.array_equal(a, b) for a, b in zip(after, before)):
+                    viols.append(violation("inputs-unmodified", "call", "MUTATION", f"mini model {name}: the user-supplied value arrays changed after {label}"))
+                    break
+            if not viols and not (frames[0] == frames[1] == frames[3]):
+                viols.append(violation("history-independence", "call", "DIGEST", f"mini model {name}: sim(P1, V) gives different frames in calls 1, 2 and 4 of one history"))
+            obs.append({"key": f"mini-{name}|sim[P1,V]", "digest": frames[0] if frames else "", "history": ["sim(P1,V)"]})
+        except Exception as e:
+            viols.append(violation("history", "reuse", "EXC:" + type(e).__name__, f"mini model {name}: reusing the value arrays returned by solve in several simulate calls failed: {str(e)[:300]}"))
+    return outcome(status="violation" if viols else "ok", violations=viols[:2], states=len(minis), transitions=n_calls, traces=len(minis), digest=digest([o["digest"] for o in obs]), obs=obs)
+
+
 def run_case(case):
-    return {"seq": _run_seq, "variants": _run_variants, "hash": _run_hash}[case["kind"]](case)
+    return {"seq": _run_seq, "variants": _run_variants, "hash": _run_hash, "reuse": _run_reuse}[case["kind"]](case)
 
 
 SINGLE_OUTCOME_OK = True
